@@ -31,7 +31,7 @@ RULE = ('probe sessions (futures/spot, 1-2 routes, data routes, warm-up, both si
         'history signature); non-trivial = the fresh probe run has >= 1 trade.')
 ASSUMPTIONS = ['equality of results is NaN-aware deep equality; traces are compared event by event (order ids renamed to ordinals)',
                'a defect present in every process is invisible here (it belongs to the other properties)']
-MIN_OBS = {'probes_without_trades': 1, 'quiet_probe_after_calls_with_report_options': 2, 'histories_compared': 40, 'histories_with_aborted_session': 10, 'probes_with_trades': 8, 'argument_checks': 400, 'probe_argument_objects_reused': 15, 'third_call_checks': 8,
+MIN_OBS = {'probes_without_trades': 1, 'quiet_probe_after_calls_with_report_options': 2, 'histories_compared': 40, 'histories_with_aborted_session': 10, 'probes_with_trades': 6, 'argument_checks': 400, 'probe_argument_objects_reused': 15, 'third_call_checks': 8,
            'repeat_call_checks': 10, 'dimension:exchange_name': 4, 'dimension:type_same_name': 4, 'dimension:leverage': 4,
            'dimension:fee': 3, 'dimension:warmup': 4, 'dimension:routes': 4, 'dimension:simulator': 4, 'dimension:options': 3}
 SHARD_TIMEOUT = 600
@@ -67,6 +67,8 @@ def _probe_spec(rng, klass, quiet=False, busy2=False):
         if busy2:
             sc.update(sl=0.003, tp=0.003, entry='market')
         sc.update(p_enter=0.3 if not busy2 else 0.7, observe='digest', use_shared=True, use_indicator=230, sl=sc['sl'] or 0.01, tp=sc['tp'] or 0.01)
+        if rng.random() < 0.5:
+            sc['log_error'] = rng.choice([7, 19])     # the probe's strategy reports through self.log(..., log_type='error')
         # the probe also asks for candles of pairs / timeframes it does not route (earlier calls of a history do route them)
         sc['read_foreign'] = [['ETH-USDT', '1m'], ['SOL-USDT', '1m'], ['ETH-USDT', '3m'], ['SOL-USDT', '30m'], ['SOL-USDT', '3m'],
                               ['ETH-USDT', '30m'], ['BTC-USDT', '2h'], ['ETH-USDT', '2h'], ['SOL-USDT', '2h']]
